@@ -80,7 +80,8 @@ def rules(P, R, prefix="C13"):
 
         # ---------------- E2 synchronize -> request
         sr = prog.fn(MSYNC + "::run")
-        wf = prog.fn(MSYNC + "::waiter")
+        from ..common import waiter_fn
+        wf = waiter_fn(prog, MSYNC)
         if R.judge(sr is not None and wf is not None, prefix + ".E2", "anchors mempool Synchronizer::run/waiter" + tag, "", "", "anchor-missing", reason="anchor-missing"):
             ctx = env.ctx(sr)
             flow = env.flow(sr)
@@ -107,7 +108,7 @@ def rules(P, R, prefix="C13"):
                     esc = [x for x in ir.walk(loop["body"], into_closures=False) if x["k"] in ("break", "ret")]
                     R.judge(not esc, prefix + ".E2", key(sr, "digest loop has no early exit" + tag), loop["sp"], "", "the digest loop can stop at %s" % [e["sp"] for e in esc])
                     pushes = [x for x in ir.walk(loop["body"], into_closures=False) if x["k"] == "mcall" and x["name"] == "push" and x["recv"]["k"] == "var" and ctx.term(x["args"][0]) == D]
-                    waits = [x for x in ir.walk(loop["body"], into_closures=False) if x["k"] == "call" and MSYNC + "::waiter" in callee_paths(x)]
+                    waits = [x for x in ir.walk(loop["body"], into_closures=False) if x["k"] == "call" and wf is not None and wf.path in callee_paths(x)]
                     R.judge(len(pushes) == 1 and len(waits) == 1, prefix + ".E2", key(sr, "each new digest is recorded for the request and gets a waiter" + tag), loop["sp"],
                             "%d pushes, %d waiters" % (len(pushes), len(waits)), "%d record(s) / %d waiter(s) per digest" % (len(pushes), len(waits)))
                     for x in pushes + waits:
